@@ -32,6 +32,7 @@ def check(ctx, report):
     report.rule('C05.R2', 'literal zone designator only after normalisation to UTC')
     report.rule('C05.R3', 'SCSV fold (parse) and unfold (compose) are inverse')
     absent_stays_absent(ctx, report)
+    url_projection(ctx, report)
     from .c18 import name_value_composers
     name_value_composers(ctx, report, rule='C05.R5')
     import json, os
@@ -298,3 +299,35 @@ def absent_stays_absent(ctx, report):
                            '(its value rendered as the text None) and parses back as a different value' % ast.unparse(fld.converter_node))
             elif r is None:
                 report.undecided.append('%s.%s: converter %s not decidable on None' % (c.name, fld.name, ast.unparse(fld.converter_node)))
+
+
+# ---- R6: a URL is re-serialised from all of its parts ----------------------------------------------------------------
+
+URL_PARTS_AFTER_PATH = ('query', 'fragment')
+
+
+def url_projection(ctx, report):
+    """FieldValueComponentUrl keeps a urllib3 Url; whenever its text is rebuilt from individual parts (the mailto branch)
+    instead of str(url), every part that follows the path on the wire (query, fragment) must be written too, otherwise the
+    composed value parses to a different URL"""
+    c = ctx.model.try_cls('FieldValueComponentUrl')
+    f = c.methods.get('_get_value_as_simple_type') if c is not None else None
+    report.rule('C05.R6', 'URL components are re-serialised from all of their parts')
+    report.count('C05.R6')
+    if f is None:
+        report.error('C05.R6: FieldValueComponentUrl._get_value_as_simple_type vanished')
+        return
+    report.touch(f)
+    for br in [n for n in ast.walk(f.node) if isinstance(n, ast.If)]:
+        for name, body in (('then', br.body), ('else', br.orelse)):
+            attrs = {n.attr for st in body for n in ast.walk(st) if isinstance(n, ast.Attribute) and ast.unparse(n.value) == 'self.value'}
+            whole = any(isinstance(n, ast.Call) and ast.unparse(n.func) == 'str' and n.args and ast.unparse(n.args[0]) == 'self.value'
+                        for st in body for n in ast.walk(st))
+            if whole or 'path' not in attrs:
+                continue
+            report.count('C05.R6')
+            missing = [p for p in URL_PARTS_AFTER_PATH if p not in attrs]
+            if missing:
+                report.add('C05.R6', '%s@url-parts[%s]' % (f.construct, ast.unparse(br.test)[:40]),
+                           'the URL is rebuilt from %s only: its %s is dropped, the composed value parses to a different URL' % (
+                               sorted(attrs), ' and '.join(missing)))
